@@ -158,6 +158,18 @@ type binResult struct {
 }
 
 func runBinary(dir string, args ...string) binResult {
+	var r binResult
+	for attempt := 0; attempt < 6; attempt++ {
+		r = runBinaryOnce(dir, args...)
+		if !strings.Contains(r.out, "too many open files") {
+			break
+		}
+		time.Sleep(time.Duration(300*(attempt+1)) * time.Millisecond) // per-user inotify exhaustion: retry
+	}
+	return r
+}
+
+func runBinaryOnce(dir string, args ...string) binResult {
 	cmd := exec.Command(os.Getenv("VERIF_TASKCTL"), args...)
 	cmd.Dir = dir
 	cmd.Env = []string{"HOME=" + filepath.Join(dir, "home"), "PATH=/usr/bin:/bin"}
